@@ -28,3 +28,34 @@ func init() {
 		}
 	})
 }
+
+func init() {
+	debugHooks = append(debugHooks, func(c *Ctx) {
+		if os.Getenv("GQLVET_SD") == "" {
+			return
+		}
+		p := c.P
+		sd := newStackDisc(p)
+		for _, name := range []string{"validator.VariableValues", "validator.(*varValidator).validateVarType"} {
+			fn := p.Func(name)
+			if fn == nil {
+				continue
+			}
+			cell := stackCell{st: "varValidator", fld: "path"}
+			r := sd.heights(fn, cell)
+			fmt.Println(name, "balanced", r.balanced, r.why, "mayWrite", sd.mayWrite(fn, cell))
+			allInstrs(fn, func(in ssa.Instruction) {
+				if sl, ok := in.(*ssa.Slice); ok {
+					if _, ok := asPopSite(sl); ok {
+						fmt.Println("  pop site", p.Pos(sl.Pos()), r.at[sl])
+					}
+				}
+				if st, ok := in.(*ssa.Store); ok {
+					if cc, ok := cellOfAddr(st.Addr); ok && cc == cell {
+						fmt.Println("  store", p.Pos(st.Pos()), "height before", r.at[st], st.Val)
+					}
+				}
+			})
+		}
+	})
+}
